@@ -2,11 +2,14 @@ package main
 
 import (
 	"fmt"
+	"regexp"
 	"sort"
 	"go/ast"
 	"go/token"
 	"strings"
 )
+
+var isNilOnResult = regexp.MustCompile(`!out\[[^\]]+\]\.IsNil\(\)`)
 
 // miscFacts: facts added after round 4 of the seeded changes.
 func miscFacts(s *src, f *facts) {
@@ -20,7 +23,9 @@ func miscFacts(s *src, f *facts) {
 		for _, t := range asserts {
 			guarded := false
 			for _, i := range all[*ast.IfStmt](cc.Body, nil) {
-				if contains(i.Body, t) && strings.Contains(s.str(i.Cond), ".IsNil()") && strings.Contains(s.str(i.Cond), "!") {
+				// (IsNil on the function's RESULT VALUE itself — `out[i]`, of the declared, nilable result type — not on what
+				// an interface holds: `Elem().IsNil()` panics for an error value of a struct / integer / string kind)
+				if contains(i.Body, t) && isNilOnResult.MatchString(s.str(i.Cond)) && !strings.Contains(s.str(i.Cond), "Elem()") {
 					guarded = true
 				}
 			}
@@ -745,4 +750,81 @@ func wrapperFacts(s *src, f *facts) {
 		where = fmt.Sprintf("%d wrappers", n)
 	}
 	f.b("ioWrappersNonBlocking", ok, where)
+}
+
+// crossFacts — guarantees of one file that properties anchored in OTHER files silently rely on (round 6 of the
+// seeded changes: each property attacked through a file outside its anchors).
+//   ucResultsUntouched  utils.Call hands back exactly what the function returned: the only assignment to its result
+//                       list is `out = fn.Call(in)`; no element is replaced, nothing loops over it.  (A "normalisation"
+//                       there changes every handler's and every closure's results: errors, nil collections …)
+//   clFreeNeverWaits    the release function returned by registerClosure only locks, deletes and unlocks: it has no
+//                       wait, channel operation or select — it runs deferred on EVERY exit path of a call, so anything
+//                       it waits for (e.g. a closure body still running) delays the return of a cancelled or failed call.
+func crossFacts(s *src, f *facts) {
+	uc := s.funcDecl("", "Call")
+	untouched := false
+	if uc != nil && uc.Body != nil {
+		n, bad := 0, false
+		ast.Inspect(uc.Body, func(x ast.Node) bool {
+			switch v := x.(type) {
+			case *ast.FuncLit:
+				return false // the deferred recover block is judged by recoverBlocksCanonical / ucNonErrorPanicMapped
+			case *ast.AssignStmt:
+				for _, l := range v.Lhs {
+					t := s.str(l)
+					if t == "out" {
+						n++
+						if len(v.Rhs) != 1 || !strings.HasSuffix(s.str(v.Rhs[0]), ".Call(in)") {
+							bad = true
+						}
+					}
+					if strings.HasPrefix(t, "out[") {
+						bad = true
+					}
+				}
+			case *ast.RangeStmt, *ast.ForStmt:
+				bad = true
+			case *ast.ReturnStmt:
+				for _, r := range v.Results {
+					if t := s.str(r); t != "out" && t != "err" && !strings.HasSuffix(t, ".Call(in)") && t != "nil" {
+						bad = true
+					}
+				}
+			}
+			return true
+		})
+		untouched = !bad && n <= 1
+		// (`return fn.Call(in), nil` without the named result is fine too)
+	}
+	f.b("ucResultsUntouched", untouched, s.pos(uc))
+
+	rc := s.funcDecl("", "registerClosure")
+	if rc == nil {
+		rc = s.funcDecl("closureManager", "registerClosure")
+	}
+	neverWaits := false
+	if rc != nil {
+		var free *ast.FuncLit
+		for _, l := range all[*ast.FuncLit](rc.Body, nil) {
+			if len(s.callsTo(l, "delete")) > 0 {
+				free = l
+			}
+		}
+		if free != nil {
+			neverWaits = len(all[*ast.SelectStmt](free.Body, nil)) == 0 && len(all[*ast.SendStmt](free.Body, nil)) == 0 && len(all[*ast.GoStmt](free.Body, nil)) == 0
+			for _, u := range all[*ast.UnaryExpr](free.Body, nil) {
+				if u.Op == token.ARROW {
+					neverWaits = false
+				}
+			}
+			for _, c := range all[*ast.CallExpr](free.Body, nil) {
+				fn := s.str(c.Fun)
+				if strings.HasSuffix(fn, ".Wait") || strings.HasSuffix(fn, ".Acquire") || strings.HasSuffix(fn, ".Do") || strings.HasSuffix(fn, "Sleep") {
+					neverWaits = false
+				}
+			}
+		}
+	}
+	f.b("clFreeNeverWaits", neverWaits, s.pos(rc))
+
 }
